@@ -542,9 +542,27 @@ def run_loudness(res):
             res["sets"].setdefault("loudness_exceptions", set()).add("%s: %s" % (name, type(e).__name__))
 
 
+def secondary_jobs(pid, tier, seed):
+    """The unsupported-option catalogue and the loudness cases again under `python -O`: a guard written
+    as an `assert` disappears there."""
+    return [("optimized", [sys.executable, "-O"], {"VF_OPT": "1"}, [pid, "--tier", tier, "--seed", str(seed), "--shard", "0", "--nshards", "1"])]
+
+
 def run_shard(pid, tier, seed, idx, n):
     common.setup_repo()
     res = _new_result()
+    if os.environ.get("VF_OPT") == "1":
+        res["info"]["python_optimize_flag"] = sys.flags.optimize
+        if not sys.flags.optimize:
+            res["not_judged"]["harness_error"] = 1
+            return res
+        run_option_catalogue(res, seed, 0, 1, tier)
+        run_loudness(res)
+        for v in res["violations"]:
+            v["sig"]["interpreter"] = "python -O"
+        res["judged"] = {k + "|-O": v for k, v in res["judged"].items()}
+        res["sets"] = {k: sorted(v) for k, v in res["sets"].items()}
+        return res
     cal, denied = enumerate_callables()
     res["info"]["callables"] = len(cal)
     res["info"]["denylist_hits"] = len(denied)
